@@ -62,6 +62,13 @@ def real(case):
     np.copyto(M, M0)
 
     def run():
+        # the result is a function of the matrix only: what the caller does with a returned vector (here: overwrite it in place) must not
+        # change the answer to the next call with a matrix of the same content (a result cache handing out its stored array would)
+        p0 = mh.msm.peq(M.copy(), allow_non_ergodic=case['allow'])
+        try:
+            np.asarray(p0)[...] *= 100.0
+        except (ValueError, TypeError):
+            pass
         p = mh.msm.peq(M, allow_non_ergodic=case['allow'])
         p = np.asarray(p)
         if np.iscomplexobj(p):
